@@ -309,6 +309,10 @@ def cases(rng, tier):
     if not thorough:
         for k in rng.shuffle(list(range(1, HEADLEN + 40)))[:10]:
             out.append(mk("n", "11", "GET", 200, "cl:7", 7, ["d7"], "-", "keep", str(k), (), "-", 1))
+    # re-forwarded requests (first parent answers a complete 502, the scripted origin is the second parent): complete and truncated replies
+    for _ in range(40 if thorough else 8):
+        l = truncated_case(rng, True) if rng.chance(2, 3) else valid_case(rng, tier, SIZES_Q)
+        out.append("r " + l.split(" ", 1)[1])
     rng.shuffle(out)
     # inputs of the known-finding classes last and few (each costs a client-side timeout)
     for _ in range(4 if thorough else 2):
@@ -404,7 +408,7 @@ def oracle(line, impl):
         return "no usable observation: " + impl[:100]
     fs, arrivals = fields(impl)
     truth = H.origin_truth(sc)
-    if len(fs) != (1 if sc["cache"] == "n" else 2):
+    if len(fs) != (1 if sc["cache"] in ("n", "r") else 2):
         return "malformed observation"
     for i, f in enumerate(fs):
         why = judge(sc, f, truth)
